@@ -114,8 +114,9 @@ class World:
         self.program = program
         endpoint, pname, payloads, close_after, mode = program
         self.env = e3.Env(prefix)
-        self.expected = b''.join(payloads)
-        self.need_before_close = b''.join(payloads[:close_after]) if close_after is not None else None
+        enc = [q.encode('utf-8') if isinstance(q, str) else q for q in payloads]     # File also accepts text payloads
+        self.expected = b''.join(enc)
+        self.need_before_close = b''.join(enc[:close_after]) if close_after is not None else None
         self.accepted = b''
         self.fatal = None
         self.closed_at = None
@@ -311,6 +312,11 @@ def programs(tier):
                 for ca in [None] + list(range(1, len(pl) + 1)):
                     for mode in ('burst', 'spread'):
                         yield (ep, pn, pl, ca, mode), k
+    # File: text payloads with multi-byte characters (encoded by the component; the OS counts bytes, not characters)
+    for pl in (('h\u00e9llo',), ('\u00e9', 'a\u20acb'), ('\u00e9\u00e9\u00e9', 'x')):
+        for ca in (None, len(pl)):
+            for mode in ('burst', 'spread'):
+                yield ('file', 'Select', pl, ca, mode), k
     # one multi-megabyte payload (larger than what one send() takes): 3 MiB + 5 bytes, alone and behind a short one
     big = bytes(range(256)) * (3 * 4096) + b'tail!'
     for ep in endpoints:
@@ -330,12 +336,12 @@ POLLERS = ('Select', 'Poll', 'EPoll')
 
 
 def pj(program):
-    return {'endpoint': program[0], 'poller': program[1], 'payloads': [p.decode('latin1') if len(p) < 100 else 'BIG%d' % len(p) for p in program[2]], 'close_after': program[3], 'mode': program[4]}
+    return {'endpoint': program[0], 'poller': program[1], 'payloads': [('T:' + p) if isinstance(p, str) else (p.decode('latin1') if len(p) < 100 else 'BIG%d' % len(p)) for p in program[2]], 'close_after': program[3], 'mode': program[4]}
 
 
 def from_json(d):
     big = bytes(range(256)) * (3 * 4096) + b'tail!'
-    return (d['endpoint'], d['poller'], tuple(big if p.startswith('BIG') else p.encode('latin1') for p in d['payloads']), d['close_after'], d['mode'])
+    return (d['endpoint'], d['poller'], tuple(big if p.startswith('BIG') else (p[2:] if p.startswith('T:') else p.encode('latin1')) for p in d['payloads']), d['close_after'], d['mode'])
 
 
 def signature(w, kind):
